@@ -342,7 +342,9 @@ def _read_only_uses(modtree, name):
 
 
 def _expression_like(fd):
-    """does the body consist only of what inline_expr folds into a term (returns, ifs, assignments, calls)?"""
+    """does the body consist only of what inline_expr folds into a term (returns, ifs, assignments, calls)?  A body that
+    branches may not also act (statement calls, assertions, stores into objects): folded into one conditional value,
+    the actions of both branches would land on one path."""
     def ok(stmts):
         for x in stmts:
             if isinstance(x, (ast.Return, ast.Assign, ast.AnnAssign, ast.Expr, ast.Pass, ast.Assert)):
@@ -353,7 +355,25 @@ def _expression_like(fd):
                 continue
             return False
         return True
-    return ok(fd.body)
+    if not ok(fd.body):
+        return False
+    branches = any(isinstance(n, ast.If) for n in ast.walk(fd))
+    if branches:
+        for n in ast.walk(fd):
+            if isinstance(n, ast.Assert):
+                return False
+            if isinstance(n, ast.Expr) and not isinstance(n.value, ast.Constant):
+                return False
+            if isinstance(n, (ast.Assign, ast.AugAssign)):
+                tg = n.targets if isinstance(n, ast.Assign) else [n.target]
+                if any(isinstance(t, (ast.Subscript, ast.Attribute)) for t in tg):
+                    return False
+    return True
+
+
+def _loops_only(fd):
+    """straight-line body with loops (no branching): the bounded-loop case inline_expr unrolls"""
+    return not any(isinstance(n, (ast.If, ast.While, ast.Try, ast.With)) for n in ast.walk(fd))
 
 
 def _forkable(fd):
@@ -1131,6 +1151,8 @@ class SymExec(object):
         caller's event trace.  None when the body uses constructs that cannot be folded into an expression."""
         penv = self.bind_params(fd, f, args, kws, st)
         if penv is None:
+            return None
+        if not _expression_like(fd) and not _loops_only(fd):
             return None
         nested = isinstance(getattr(fd, '_parent', None), ast.FunctionDef)
         sub = State()
